@@ -990,6 +990,17 @@ pub(crate) fn parse_selector(text: &str) -> IResult<&str, Selector> {
     if let Some(&SelectorComponent::CombDescendant) = components.last() {
         components.pop();
     }
+    // A child combinator needs a compound selector on both sides: `p >`,
+    // `> p` and `p > > q` are not selectors (so the rule is dropped).
+    let is_child = |c: Option<&SelectorComponent>| c == Some(&SelectorComponent::CombChild);
+    if is_child(components.first())
+        || is_child(components.last())
+        || components
+            .windows(2)
+            .any(|w| is_child(w.first()) && is_child(w.last()))
+    {
+        return fail(text);
+    }
 
     let (rest, pseudo_element) = parse_pseudo_element(rest)?;
     Ok((
